@@ -46,10 +46,17 @@ def run(tier, seed):
     bad = [i for i, a in enumerate(ans) if a == 'sat']
     if bad:
         i = bad[0]
-        m, _ = smt.get_model(prelude + '\n' + goals[i][2], ['n%d' % nid])
+        svars = [low.name(x) for x in p['obs']['S']['f']]
+        m, _ = smt.get_model(prelude + '\n' + goals[i][2], ['n%d' % nid] + svars)
         cases = []
         if m:
-            cases.append({'kind': 'bits', 'a': '%064x' % m['n%d' % nid]})
+            cases.append({'kind': 'bits', 'a': '%064x' % (m['n%d' % nid] % N)})
+            # the limbs the solver chose, with their TRUE canonical value (the defect may depend on the Montgomery form)
+            Sm = unlimbs([m[x] for x in svars])
+            if Sm < N:
+                cases.append({'kind': 'bits', 'a': '%064x' % (Sm * pow(R, -1, N) % N)})
+        for sp in [1, 2**64, 2**128, 2**191, 5 * 2**64 + 3]:   # scalars whose Montgomery form is sparse / short
+            cases.append({'kind': 'bits', 'a': '%064x' % (sp * pow(R, -1, N) % N)})
         # steering: canonical values that exercise the failing position
         for v in [1 << i, N - 1, (1 << i) | 1]:
             if v < N:
